@@ -506,7 +506,7 @@ int vd_print_main(int argc, char **argv)
         if (!strcmp(argv[k], "--fulltable")) full_table = 1;
     }
     use_custom_hooks(); region_init(); vd_install_handlers();
-    if (do_failinject) failinject_long();
+    if (do_failinject) { VD.curline = (char*)"# driver-built case: long trees printed under refused allocation requests"; failinject_long(); VD.curline = NULL; }
     while ((len = getline(&line, &cap, stdin)) > 0 || (len < 0 && errno == EINTR && !feof(stdin) && (clearerr(stdin), 1))) {
         char *copy; jv *v; int rc;
         if (len <= 0) continue;
